@@ -29,24 +29,19 @@ OPS = ["CreateBucket", "PutVersioning", "PutObject", "DeleteObject", "CopyObject
        "UploadPartCopy", "CompleteUpload", "Transition"]
 
 
-def generate(ctx, stack, nprog, ncases, depth, seed, first_id):
-    subst = {"Ops": pithos.tla_set(OPS), "GenDepth": str(depth), "Stack": '"%s"' % stack, "NCases": str(ncases)}
+def generate(ctx, nprog, ncases, depth, seed):
+    subst = {"Ops": pithos.tla_set(OPS), "GenDepth": str(depth), "NCases": str(ncases)}
     r = ctx.tlc("IntegrityGen", "Integrity.Gen.cfg", workers=1, simulate="num=%d" % nprog, depth=depth + 1, seed=seed,
                 timeout=600, count_mc=False, subst=subst)
     progs = [p for p in r.printed if isinstance(p, dict) and "calls" in p]
-    ctx.log("GEN %s: %d programs, %.1fs" % (stack, len(progs), r.wall))
+    ctx.log("GEN: %d programs, %.1fs" % (len(progs), r.wall))
     if len(progs) < nprog:
         raise vlib.Infra("case generation produced %d of %d programs (%s)\n%s" % (len(progs), nprog, r.outcome, r.output[-2000:]))
     ctx.transitions += r.generated
-    cases, cid = [], first_id
-    for p in progs[:nprog]:
-        for c in p["cases"]:
-            cases.append({"id": cid, "calls": p["calls"], "corr": c["corr"], "del": c["del"]})
-            cid += 1
-    return cases
+    return [{"id": i + 1, "calls": p["calls"], "cases": p["cases"]} for i, p in enumerate(progs[:nprog])]
 
 
-def split_cases(lines):
+def split_programs(lines):
     out, cur = [], None
     for ln in lines:
         if ln["call"]["op"] == "Reset":
@@ -57,9 +52,34 @@ def split_cases(lines):
     return out
 
 
-def validate(ctx, groups, label):
-    """TV of the concatenated cases; a case whose state-building program is not explained by Pithos.tla is
-    dropped (that is a matter of C01..C13, not a C39 verdict) and the rest is validated again."""
+def falsified(group):
+    """Binding self-test input: a copy of one program's trace whose last Validate line is falsified."""
+    g = json.loads(json.dumps(group))
+    g[0]["prog"] = 999999
+    for ln in g[1:]:
+        ln["prog"] = 999999
+    v = g[-1]
+    if v["err"] != "":
+        v["err"] = ""          # claims a successful run that looked at no object although objects exist
+    elif v["passed"]:
+        v["failed"].append(v["passed"].pop())
+        v["counts"]["failed"] += 1
+        v["counts"]["ok"] -= 1
+    else:
+        v["passed"].append(v["failed"].pop())
+        v["counts"]["failed"] -= 1
+        v["counts"]["ok"] += 1
+    return g
+
+
+def has_objects(group):
+    v = group[-1]
+    return v["call"]["op"] == "Validate" and any(b["listed"] for b in v["views"])
+
+
+def validate(ctx, groups):
+    """TV of the concatenated programs; a program whose state building is not explained by Pithos.tla is
+    dropped (that is a matter of C01..C14, not a C39 verdict) and the rest is validated again."""
     ideviations = ctx.deviations("D-C39")
     deviations = ctx.deviations(props=pithos.PROPS)
     records, dropped, rounds = [], [], 0
@@ -67,9 +87,9 @@ def validate(ctx, groups, label):
     while pending:
         rounds += 1
         if rounds > 6:
-            raise vlib.Infra("too many cases whose state building is rejected by Pithos.tla")
+            raise vlib.Infra("too many programs whose state building is rejected by Pithos.tla")
         flat = [ln for g in pending for ln in g]
-        f = ctx.path("tv-%s-%d.ndjson" % (label, rounds))
+        f = ctx.path("tv-%d.ndjson" % rounds)
         vlib.write_ndjson(f, flat)
         r = ctx.tlc("IntegrityTrace", "Integrity.Trace.cfg", workers=1, timeout=1800, env={"TRACE_FILE": f},
                     count_mc=False, xss="64m", subst={"Deviations": deviations, "IDeviations": ideviations})
@@ -78,7 +98,7 @@ def validate(ctx, groups, label):
         ctx.transitions += r.generated
         ctx.states += r.distinct
         consumed = max(r.depth - 1, 0)
-        ctx.log("TV %s round %d: %d of %d lines consumed, %.1fs" % (label, rounds, consumed, len(flat), r.wall))
+        ctx.log("TV round %d: %d of %d lines consumed, %.1fs" % (rounds, consumed, len(flat), r.wall))
         recs = [d for d in r.printed if isinstance(d, dict) and d.get("what") == "validate"]
         for d in recs:
             d["line"] = flat[d["l"] - 1]
@@ -89,7 +109,7 @@ def validate(ctx, groups, label):
         k = pithos._prog_index(pending, consumed + 1)
         bad = flat[consumed]
         why = [d for d in r.printed if isinstance(d, dict) and d.get("l") == consumed + 1 and d.get("what") not in ("validate", "deviation")]
-        ctx.log("case %s dropped: line %d (%s) not explained while building the state%s" % (
+        ctx.log("program %s dropped: line %d (%s) not explained while building the state%s" % (
             pending[k][0].get("prog"), consumed + 1, json.dumps(bad["call"])[:200], (": mismatch in " + why[0]["what"]) if why else ""))
         dropped.append({"prog": pending[k][0].get("prog"), "call": bad["call"], "what": why[0]["what"] if why else "?"})
         first = sum(len(g) for g in pending[:k])
@@ -109,59 +129,62 @@ def run(ctx):
                subst={"Classes": '{"none", "GLACIER"}', "MCStacks": '{"classes"}', "MaxClock": "4"})
         ctx.mc("Integrity", "Integrity.MC.cfg", workers=12, timeout=2400,
                subst={"Classes": '{"none"}', "MCStacks": '{"fs"}', "MaxClock": "5"})
-    # the deviations of the code are observable in the same model (guards against a vacuous CodeHolds/C39Holds)
-    d = ctx.tlc("Integrity", "Integrity.Dev.cfg", workers=4, timeout=600, count_mc=False,
-                subst={"Classes": '{"none"}', "MCStacks": '{"fs"}', "MaxClock": "3"})
+    # the deviations of the code are observable in the same model (guards against a vacuous C39Holds)
+    d = ctx.tlc("Integrity", "Integrity.Dev.cfg", workers=2, timeout=600, count_mc=False,
+                subst={"Classes": '{"none"}', "MCStacks": '{"fs"}', "MaxClock": "3",
+                       "IDeviations": '{"D-C39-single-part-composite-etag"}'})
     if d.outcome != "invariant":
-        raise vlib.Infra("the model with the deviations enabled does not violate C39 within the bounds (%s)" % d.outcome)
+        raise vlib.Infra("the model with a deviation enabled does not violate C39 within the bounds (%s)" % d.outcome)
 
     # 2. GEN -> real code -> TV
     drv = ctx.gobuild("integrity")
-    nprog = ctx.pick(10, 90)
+    nprog = ctx.pick(12, 150)
     ncases = ctx.pick(4, 6)
     depth = ctx.pick(12, 14)
-    all_records, all_dropped, ncase = [], [], 0
-    first_id = 1
-    for si, stack in enumerate(("fs", "classes")):
-        cases = generate(ctx, stack, nprog, ncases, depth, ctx.seed * 100 + si, first_id)
-        first_id += len(cases)
-        cf, tf = ctx.path("cases-%s.ndjson" % stack), ctx.path("trace-%s.ndjson" % stack)
-        vlib.write_ndjson(cf, cases)
-        p = ctx.run([drv, "run", stack, ctx.path("work-" + stack), cf, tf], timeout=3000)
-        ctx.log(stack, p.stdout.strip().splitlines()[-1])
-        groups = split_cases(vlib.read_ndjson(tf))
-        if len(groups) != len(cases):
-            raise vlib.Infra("driver executed %d of %d cases" % (len(groups), len(cases)))
-        ncase += len(cases)
-        if si == 0:
-            ctx.sample({"stack": stack, "calls": cases[0]["calls"][:6], "corr": cases[0]["corr"], "del": cases[0]["del"]})
-        recs, dropped = validate(ctx, groups, stack)
-        all_records += recs
-        all_dropped += dropped
-        if stack == "fs":
-            selftest(ctx, groups, recs)
-    ctx.traces = len(all_records)
-    ctx.evaluations = len(all_records)
-    if len(all_dropped) * 5 > ncase:
-        raise vlib.Infra("%d of %d cases dropped while building the state: %s" % (len(all_dropped), ncase, all_dropped[:3]))
+    progs = generate(ctx, nprog, ncases, depth, ctx.seed)
+    cf, tf = ctx.path("cases.ndjson"), ctx.path("trace.ndjson")
+    vlib.write_ndjson(cf, progs)
+    p = ctx.run([drv, "run", ctx.path("work"), cf, tf], timeout=3000)
+    ctx.log(p.stdout.strip().splitlines()[-1])
+    groups = split_programs(vlib.read_ndjson(tf))
+    if len(groups) != 2 * len(progs) or any(len(g) != 1 + depth + 2 * ncases for g in groups):
+        raise vlib.Infra("driver executed %d of %d (program, stack) pairs completely" % (len(groups), 2 * len(progs)))
+    ctx.sample({"calls": progs[0]["calls"][:6], "cases_fs": progs[0]["cases"]["fs"][:2]})
+    # binding self-test input: one program with objects, its last Validate line falsified
+    st = [g for g in groups if has_objects(g)]
+    if not st:
+        raise vlib.Infra("no program left an object behind")
+    records, dropped = validate(ctx, groups + [falsified(st[0])])
+    fake = [r for r in records if r["prog"] == 999999]
+    records = [r for r in records if r["prog"] != 999999]
+    if not fake or fake[-1]["verdict"] != "mismatch" or any(r["verdict"] == "mismatch" for r in fake[:-1]):
+        raise vlib.Infra("binding self-test failed: a falsified validator report was not (exactly) rejected: %s" %
+                         [r["verdict"] for r in fake])
+    ctx.extra["binding_selftest"] = "falsified report (copy of program %s) rejected" % st[0][0]["prog"]
+    ctx.traces = len(records)
+    ctx.evaluations = len(records)
+    ncase = 2 * len(progs) * ncases
+    if len(dropped) * 5 > len(groups):
+        raise vlib.Infra("%d of %d programs dropped while building the state: %s" % (len(dropped), len(groups), dropped[:3]))
 
     # 3. verdicts
-    for r in all_records:
+    for r in records:
         line = r["line"]
-        wit = {"prog": r["prog"], "stack": r["stack"], "del": r["del"], "report_expected": r["report"],
+        wit = {"prog": r["prog"], "case": r["case"], "stack": r["stack"], "del": r["del"], "report_expected": r["report"],
                "got": {k: line[k] for k in ("err", "failed", "passed", "deleted")}}
         if r["verdict"] == "finding":
             for t in r["tags"]:
                 ctx.finding(t, wit)
         elif r["verdict"] == "mismatch":
-            rp = ctx.path("replay-%d.ndjson" % r["prog"])
-            vlib.write_ndjson(rp, [line])
-            ctx.violation(rp, "case %s (%s, deleteCorrupted=%s): validator outcome %s is not the model's %s (views %s)" % (
-                r["prog"], r["stack"], r["del"], json.dumps(wit["got"]), json.dumps(r["expected"]),
-                "agree" if r["views_ok"] else "differ"))
+            g = next(g for g in groups if g[0]["prog"] == r["prog"])
+            rp = ctx.path("replay-%d-%d.ndjson" % (r["prog"], r["case"]))
+            vlib.write_ndjson(rp, g)
+            ctx.violation(rp, "program %s case %s (%s, deleteCorrupted=%s): validator outcome %s is not the model's %s (views %s); corruption %s" % (
+                r["prog"], r["case"], r["stack"], r["del"], json.dumps(wit["got"]), json.dumps(r["expected"]),
+                "agree" if r["views_ok"] else "differ", json.dumps(g[g.index(line) - 1]["corr"])))
 
     # 4. coverage
-    f = [r["facts"] for r in all_records]
+    f = [r["facts"] for r in records]
     cov = {
         "cases": len(f),
         "cases_with_report": sum(1 for x in f if x["nrep"] > 0),
@@ -173,18 +196,19 @@ def run(ctx):
         "cases_cold_store": sum(1 for x in f if x["cold"]),
         "cases_versioned_reported": sum(1 for x in f if x["versioned"]),
         "cases_no_corruption": sum(1 for x in f if x["ncorr"] == 0),
-        "cases_delete": sum(1 for r in all_records if r["del"]),
+        "cases_delete": sum(1 for r in records if r["del"]),
+        "cases_delete_with_report": sum(1 for r in records if r["del"] and r["facts"]["nrep"] > 0),
         "kinds": sorted(set(k for x in f for k in x["kinds"])),
         "explained_by": {},
-        "dropped_state_building": all_dropped[:5],
+        "dropped_state_building": dropped[:5],
     }
-    for r in all_records:
+    for r in records:
         key = ",".join(sorted(r["dev"])) or "intended"
         cov["explained_by"][key] = cov["explained_by"].get(key, 0) + 1
     ctx.extra.update(cov)
     ctx.extra["distinct_nontrivial"] = cov["cases_with_report"]
     need = ["cases_with_report", "cases_report_and_intact", "cases_shared_part_damaged", "cases_multipart_reported",
-            "cases_cold_store", "cases_no_corruption", "cases_delete", "cases_only_uncovered_parts_damaged"]
+            "cases_cold_store", "cases_no_corruption", "cases_delete_with_report", "cases_only_uncovered_parts_damaged"]
     missing = [k for k in need if cov[k] == 0] + ([] if len(cov["kinds"]) == 4 else ["kinds"])
     if missing or cov["cases_with_report"] < 2:
         raise vlib.Infra("coverage too thin: %s (%s)" % (missing, json.dumps(cov)))
@@ -193,39 +217,9 @@ def run(ctx):
         "cases are random (TLC -simulate programs x random corruption subsets of the model state's physical parts), not exhaustive; "
         "the design check is exhaustive within its bounds",
         "a physical part is (store, bytes); the driver damages every part file of the store with those bytes",
-        "a case whose state-building program Pithos.tla does not explain is dropped (reported in evidence), not judged",
+        "every case runs on a fresh copy of the state directory its program built",
+        "a program whose state building Pithos.tla does not explain is dropped (reported in evidence), not judged",
     ]
-    return ("TLC -simulate programs of %d calls over PithosMC on stacks fs and classes, %d corruption cases per program "
-            "(one single part, one empty, the rest random subsets x kinds x deleteCorrupted); non-trivial = at least one "
-            "current object has a damaged part" % (depth, ncases))
-
-
-def selftest(ctx, groups, recs):
-    """Binding self-test: falsify one logged Validate line and require TLC to flag it."""
-    pick = None
-    for r in recs:
-        if r["verdict"] != "mismatch" and r["facts"]["ncur"] > 0:
-            pick = r
-            break
-    if pick is None:
-        raise vlib.Infra("self-test: no validated case with a current object")
-    g = next(g for g in groups if g[0].get("prog") == pick["prog"])
-    g = json.loads(json.dumps(g))
-    v = g[-1]
-    if v["err"] != "":
-        # claim a successful run that reported nothing although objects exist
-        v["err"] = ""
-    elif v["passed"]:
-        v["failed"].append(v["passed"].pop())
-        v["counts"]["failed"] += 1
-        v["counts"]["ok"] -= 1
-    else:
-        v["passed"].append(v["failed"].pop())
-        v["counts"]["failed"] -= 1
-        v["counts"]["ok"] += 1
-    before = (ctx.events, ctx.states, ctx.transitions)
-    out, _ = validate(ctx, [g], "selftest")
-    ctx.events, ctx.states, ctx.transitions = before
-    if not out or out[-1]["verdict"] != "mismatch":
-        raise vlib.Infra("binding self-test failed: a falsified validator report was accepted")
-    ctx.extra["binding_selftest"] = "falsified report of case %s rejected" % pick["prog"]
+    return ("TLC -simulate programs of %d calls over PithosMC, each built on stacks fs and classes, %d corruption cases per "
+            "program and stack (one single part + delete, one empty, the rest random subsets x kinds x deleteCorrupted); "
+            "non-trivial = at least one current object has a damaged part" % (depth, ncases))
